@@ -11,13 +11,13 @@ import os
 import sys
 
 from .. import fakevcs, pool, world
-from ..stats import Stats
+from ..stats import Stats, h64
 
 ID = "C10"
 LEVEL = "model_checking"
 MIN_OUTCOMES = 5
 MANIFEST = {
-    'text': "Complete enumeration of the VCS configuration lattice (thorough: full product incl. all 27 CLI tri-state combinations; quick: one tri-state at a time + a slice of pairs) with hooks {absent, ok, fails, killed by a signal} given by config or on the command line, `.git` as a directory or as a file (linked work tree), on the real `update` with a fake git/hg at the subprocess seam, plus single-fault injection at every effect position (each once with a neutral error text and once with the text the real tool prints for the usual cause - tag already exists, nothing to commit, failed to push, not a repository): the ordered effect trace of each run must be exactly the prefix the property prescribes for the effective settings. The full-configuration points also run as `python -m bumpver` child processes under an ASCII locale (git's answers contain a non-ASCII branch name) with fake executables on PATH and must issue the same commands. A seam-conformance pass re-runs ~1,000 configurations with fake executables first on PATH and requires identical command traces (otherwise HARNESS-ERROR, never a violation).",
+    'text': "Complete enumeration of the VCS configuration lattice (thorough: full product incl. all 27 CLI tri-state combinations; quick: one tri-state at a time + a slice of pairs) with hooks {absent, ok, fails, killed by a signal} given by config or on the command line, with and without foreign BUMPVER_OLD/NEW_VERSION values already in bumpver's own environment, `.git` as a directory or as a file (linked work tree), on the real `update` with a fake git/hg at the subprocess seam, plus single-fault injection at every effect position (each once with a neutral error text and once with the text the real tool prints for the usual cause - tag already exists, nothing to commit, failed to push, not a repository): the ordered effect trace of each run must be exactly the prefix the property prescribes for the effective settings. The full-configuration points also run as `python -m bumpver` child processes under an ASCII locale (git's answers contain a non-ASCII branch name) with fake executables on PATH and must issue the same commands. A seam-conformance pass re-runs ~1,000 configurations with fake executables first on PATH and requires identical command traces (otherwise HARNESS-ERROR, never a violation).",
     'note': 'double faults, real hg and non-executable hook scripts are outside the bound; the git command set is executed for real by C08/C11/C12',
     'technique': 'explicit-state exploration of the configuration lattice + single-fault enumeration on the implementation, trace monitors',
 }
@@ -168,6 +168,28 @@ REAL_STDERR = {
 }
 
 
+def is_preset(p):
+    return h64(sorted((k, str(v)) for k, v in p.items())) % 2 == 0
+
+
+class preset_env:
+    def __init__(self, p):
+        self.on = is_preset(p)
+
+    def __enter__(self):
+        self.saved = {k: os.environ.get(k) for k in ("BUMPVER_OLD_VERSION", "BUMPVER_NEW_VERSION")}
+        if self.on:
+            os.environ["BUMPVER_OLD_VERSION"], os.environ["BUMPVER_NEW_VERSION"] = "0.0.7", "0.0.8"
+
+    def __exit__(self, *exc):
+        for k, v in self.saved.items():
+            if v is None:
+                os.environ.pop(k, None)
+            else:
+                os.environ[k] = v
+        return False
+
+
 def execute(p, fail=None):
     files = build(p)
     world.clear_dir(".")
@@ -185,8 +207,11 @@ def execute(p, fail=None):
 
     fake = fakevcs.install(fakevcs.FakeVCS(p["kind"], tags_all=["1.2.1", "0.9.0"], status=status, remote=p["remote"], hooks=hooks,
                                            fail=fail, files_probe=probe))
+    # (for every other point the variables the hooks receive are ALREADY set in bumpver's own environment, as they are when bumpver is
+    #  started from a hook of another bumpver run or after a CI step exported them: the hooks must see this update's versions)
     try:
-        o = world.cli(*args_of(p))
+        with preset_env(p):
+            o = world.cli(*args_of(p))
     finally:
         fakevcs.uninstall()
     after = world.read_tree(".")
@@ -336,7 +361,8 @@ def seam_conformance(st, p, base):
     os.environ["PATH"] = bin_dir + os.pathsep + old_path
     os.environ["FAKE_DIR"] = fake_dir
     try:
-        o2 = world.cli(*args_of(p))
+        with preset_env(p):
+            o2 = world.cli(*args_of(p))
     finally:
         os.environ["PATH"] = old_path
         if old_fd is None:
@@ -376,6 +402,11 @@ def ascii_locale(st, p, base):
             fakevcs.path_fake_hook(name, 0 if mode == "ok" else 3)
     env = dict(os.environ, LC_ALL="C", LANG="C", PYTHONUTF8="0", PYTHONCOERCECLOCALE="0", FAKE_DIR=fake_dir,
                PATH=bin_dir + os.pathsep + os.environ.get("PATH", ""), PYTHONPATH=os.environ.get("BUMPVER_SRC", "/repo/src"), PYTHONDONTWRITEBYTECODE="1")
+    if is_preset(p):
+        env.update(BUMPVER_OLD_VERSION="0.0.7", BUMPVER_NEW_VERSION="0.0.8")
+    else:
+        env.pop("BUMPVER_OLD_VERSION", None)
+        env.pop("BUMPVER_NEW_VERSION", None)
     r = sp.run([sys.executable, "-m", "bumpver"] + args_of(p), env=env, stdout=sp.PIPE, stderr=sp.PIPE)
     got = fakevcs.path_fake_trace(fake_dir)
     st.evaluations += 2
